@@ -11,6 +11,8 @@
 //   spurious               the scheduler may wake a condition waiter that nobody notified (raw schedules only: the
 //                          `follow` chooser never picks such a move)
 //   subs: q<id> r<id> quit p<id> startLoop destroy
+// Events: point <name> | exec <id> | wakeup | wakeread | post <id> | started | started null | joined | returned |
+//   destroyed | uaf   (`started null`: startLoop() returned NULL; later ops of T0 on the loop are skipped)
 // stdout: `T<k> <event>` lines, `# …` comments, then `done` | `blocked T0:<st> …`, then `--`.
 //   comments for the trace oracle (not compared with the model): `# T<k> call q|r <id>` / `# T<k> ret q|r <id>`,
 //   `# T<k> call quit|startLoop|destroy` / `# T<k> ret …` around every API call (`ret startLoop ok|null|other`), `# T<k> leave <id>` at the end of
@@ -262,7 +264,7 @@ void doSub(const Sub& s) {
         note("call startLoop");
         g_elt_obj = new muduo::net::EventLoopThread(&initCallback, "w");
         g_loopPtr = g_elt_obj->startLoop();
-        say("started");
+        say(g_loopPtr ? "started" : "started null");   // NULL: the loop had come and gone before startLoop() looked
         note("ret startLoop %s", g_loopPtr == 0 ? "null" : (g_loopPtr == g_loop ? "ok" : "other"));
       }
       break;
